@@ -374,9 +374,18 @@ class ReplaceMatch(ast.NodeTransformer):
         cases = []
         default_body = None
 
-        for c in node.cases:
+        for idx, c in enumerate(node.cases):
             # Visit the body first
             body = [self.visit(stmt) for stmt in c.body]
+            
+            if c.guard and isinstance(c.pattern, ast.MatchValue):
+                # when the guard fails Python goes on with the following cases, 
+                # a Verilog case item does not: refuse if a later case could match
+                for later in node.cases[idx+1:]:
+                    isDefault = isinstance(later.pattern, ast.MatchAs) and later.pattern.name is None
+                    isSame = isinstance(later.pattern, ast.MatchValue) and (ast.dump(later.pattern.value) == ast.dump(c.pattern.value))
+                    if (isDefault or isSame):
+                        raise TranspilationException('match guard with fall-through to a later case not supported')
 
             # Handle default: match _
             if isinstance(c.pattern, ast.MatchAs) and c.pattern.name is None:
